@@ -2,9 +2,9 @@
     This file contains only the property theorems; each is closed by [exact] of a lemma proved in
     Proofs13*.v and followed by [Print Assumptions].  Model: Model13.v (heap with the implementation's link
     fields; the kidOK table and the numeric codes are regenerated from /repo on every run).  Spec: Spec13.v. *)
-From Coq Require Import NArith List Bool Arith.
+From Coq Require Import NArith ZArith List Bool Arith.
 From XV Require Import Base.XDefs Gen.GenKidOK C13.Ops13 C13.Spec13 C13.Model13 C13.Abs13 C13.Proofs13a C13.Proofs13b C13.Proofs13c C13.Proofs13d C13.Proofs13e
-  C13.Proofs13f C13.Proofs13g C13.Proofs13h C13.Proofs13i C13.Proofs13j C13.Proofs13k C13.Proofs13l.
+  C13.Proofs13f C13.Proofs13g C13.Proofs13h C13.Proofs13i C13.Proofs13j C13.Proofs13k C13.Proofs13l C13.Proofs13m C13.AttrMap13 C13.Proofs13n.
 Import ListNotations.
 
 (** tie to the source: the regenerated kidOK table is the DOM structure model *)
@@ -288,3 +288,79 @@ Example T13_duplicate_ids :
   snd (run_cfg cfg_fixed (init_heap 1) (pre ++ [OSetIdAttr 1 A false; OGetById 0 [100%N]])) =
     [RNode 1; RNode 2; ROk; ROk; ROk; ROk; ROk; RNode 2].
 Proof. vm_compute. split; reflexivity. Qed.
+
+(** ------------------------------------------------------------------------------------------------------------
+    T13_wf_preserved_all -- the FULL invariant [WFheap] for EVERY operation of the model (Proofs13m.v): also cloneNode
+    (deep, with attributes), normalize, splitText, renameNode, setAttribute, removeAttribute and setNodeValue on an Attr,
+    with ARBITRARY operands, whatever the result (value, exception, skip).  The only side condition is syntactic:
+    setAttribute is not called with the EMPTY name ([named_attr_op]; createAttribute refuses it with
+    INVALID_CHARACTER_ERR -- the model's by-name search could otherwise "find" an index outside the heap, because the
+    invariant does not speak about the contents of attribute maps). *)
+Theorem T13_wf_preserved_all : forall h o h' r, WFheap h -> named_attr_op o = true -> step h o = (h', r) ->
+  WFheap h' /\ length h <= length h'.
+Proof. exact step_GW_all. Qed.
+Print Assumptions T13_wf_preserved_all.
+
+(** ... hence for every heap reachable from n empty documents by ANY sequence of the 27 operation kinds *)
+Theorem T13_wf_reachable_all : forall n l h rs, forallb named_attr_op l = true ->
+  run_cfg cfg_fixed (init_heap n) l = (h, rs) -> WFheap h.
+Proof. intros n l h rs Hl E. exact (proj1 (run_WFheap_all l _ _ _ (WFheap_init n) Hl E)). Qed.
+Print Assumptions T13_wf_reachable_all.
+
+(** non-vacuity: a history with clone, split, normalize, rename, setAttribute (twice: the value is rebuilt), removeAttribute *)
+Example T13_wf_all_nonvacuous :
+  let l := [OCreate 0 TElem A []; OAppend 0 1; OCreate 0 TText [] [97; 98; 99]%N; OAppend 1 2; OSplitText 2 1;
+            OSetAttr 1 A X; OSetAttr 1 A A; OClone 1 true; ONormalize 1; ORename 0 1 X [112; 58; 98]%N; ORemoveAttr 12 A] in
+  let '(h, rs) := run_cfg cfg_fixed (init_heap 1) l in
+  nth 4 rs ROk = RNode 3 /\ kids h 12 = [2] /\ n_attrs (nd h 12) = [] /\ WFheap h.
+Proof. cbv zeta. destruct (run_cfg _ _ _) as [h rs] eqn:E. split; [|split; [|split]];
+  try (vm_compute in E; injection E as <- <-; vm_compute; reflexivity).
+  eapply T13_wf_reachable_all; [|exact E]. reflexivity. Qed.
+
+(** ------------------------------------------------------------------------------------------------------------
+    T13_attrmap -- DOMAttrMapImpl's name-sorted vector.  [find_name_point] (AttrMap13.v) is the bisection of
+    DOMAttrMapImpl::findNamePoint(name) line by line (int arithmetic, the "if (first>i) i=first" epilogue, -1 - i encoding).
+    T13_attrmap_bisect: on a strictly name-sorted vector of ANY length it returns either an index holding the name or
+    -1 - p where every entry before p is smaller and every entry from p on is greater ([fnp_ok]); the fuel of the model
+    (size + 1 iterations) is never exhausted.  T13_attrmap_find / _put: getNamedItem and the vector update of setNamedItem
+    computed through the bisection equal the linear search / insertion [amap_find] / [amap_put] that the heap model uses.
+    T13_attrmap_sorted_partial: setNamedItem and removeNamedItem keep the vector strictly sorted (hence names unique,
+    T13_attrmap_unique).  PARTIAL: sortedness is proved per update of one vector, not as an invariant of all operation
+    histories (renameNode changes the name of a detached attribute; the heap invariant WFheap does not speak about
+    attribute maps); the correspondence asks findNamePoint itself after every update (query fp). *)
+Theorem T13_attrmap_bisect : forall h l nm, lsorted (names h l) -> fnp_ok h l nm (find_name_point h l nm).
+Proof. intros h l nm S. apply find_name_point_ok. apply sorted_Hs. exact S. Qed.
+Print Assumptions T13_attrmap_bisect.
+
+Theorem T13_attrmap_find : forall h l nm, lsorted (names h l) -> amap_find_bis h l nm = amap_find h l nm.
+Proof. exact find_bis_eq. Qed.
+Print Assumptions T13_attrmap_find.
+
+Theorem T13_attrmap_put : forall h l a, lsorted (names h l) -> amap_put_bis h l a = amap_put h l a.
+Proof. exact put_bis_eq. Qed.
+Print Assumptions T13_attrmap_put.
+
+Theorem T13_attrmap_sorted_partial : forall h l a, lsorted (names h l) ->
+  lsorted (names h (amap_put h l a)) /\ lsorted (names h (amap_del l a)).
+Proof. intros h l a S. split; [apply amap_put_sorted|apply amap_del_sorted]; exact S. Qed.
+Print Assumptions T13_attrmap_sorted_partial.
+
+Theorem T13_attrmap_unique : forall h l i j, lsorted (names h l) -> i < length l -> j < length l ->
+  n_name (nd h (nth i l 0)) = n_name (nd h (nth j l 0)) -> i = j.
+Proof. exact lsorted_unique. Qed.
+Print Assumptions T13_attrmap_unique.
+
+(** non-vacuity: sorted vectors of every size arise from the empty one by setNamedItem; and the bisection on a concrete
+    element with five attributes inserted out of order (c, a, e, b, d): present names, absent names before / between / after *)
+Example T13_attrmap_nonvacuous_sorted : forall h a b c, lsorted (names h (amap_put h (amap_put h (amap_put h [] a) b) c)).
+Proof. intros. repeat apply amap_put_sorted. exact I. Qed.
+
+Example T13_attrmap_nonvacuous :
+  let nmc (c : N) : str := [c] in
+  let l := [OCreate 0 TElem A []; OSetAttr 1 (nmc 99%N) X; OSetAttr 1 (nmc 97%N) X; OSetAttr 1 (nmc 101%N) X;
+            OSetAttr 1 (nmc 98%N) X; OSetAttr 1 (nmc 100%N) X] in
+  let h := fst (run_cfg cfg_fixed (init_heap 1) l) in
+  n_attrs (nd h 1) = [4; 8; 2; 10; 6] /\
+  map (find_name_point h (n_attrs (nd h 1))) [nmc 97%N; nmc 99%N; nmc 101%N; nmc 65%N; [98; 98]%N; nmc 122%N] = [0; 2; 4; -1; -3; -6]%Z /\
+  map (fun q => amap_find_bis h (n_attrs (nd h 1)) q) [nmc 98%N; nmc 102%N] = [Some 8; None].
+Proof. vm_compute. repeat split; reflexivity. Qed.
